@@ -31,7 +31,9 @@ FEATS = dict(div=False, ts=False, strftime=False, nulls_order=True, setops_all=T
              any_sub=False,                 # unnest_subqueries compares the operand with a boolean for correlated ANY
              group_derived_expr=False,      # simplify rewrites an inlined GROUP BY expression differently from SELECT
              derived_order_nolimit=False,   # merge_subqueries keeps an inner ORDER BY that names dropped aliases
-             outer_derived=False,           # merge_subqueries inlines constants from the null-supplying side
+             outer_derived="plain",         # merge_subqueries inlines constants / non-strict expressions from the null-supplying
+                                            # side: derived tables there project bare columns only
+             tvl=True,
              subq_under_or=False,           # unnest_subqueries turns a subquery predicate under NOT / OR into a join filter
              cross_join_derived=False,      # eliminate_joins drops a cross-joined derived table that may be empty
              same_col_const_pair=False,     # simplify folds `c = 1 AND c < 0` to FALSE although it is NULL for NULL (C06 finding)
